@@ -98,10 +98,12 @@ def isRequest (t : Nat) : Label → Bool
   | .cancelself x => x == t
   | _ => false
 
-/-- user code of `t` catches the cancellation, or replaces it by raising -/
+/-- user code of `t` catches the cancellation, or replaces it by raising (in a body or in a disposable) -/
 def excuses (t : Nat) : Label → Bool
   | .caught x .cancelled => x == t
   | .raise x _ => x == t
+  | .enterfail x _ o => x == t && o.isExc         -- a disposable of `t` raises while a scope is entered
+  | .cleanupEnd x _ o _ => x == t && o.isExc      -- … or during the cleanup, replacing what was propagating
   | _ => false
 
 /-- **The full statement** (first half of C07): whenever a request reaches a live task – wherever it is: not started,
